@@ -114,6 +114,8 @@ fn account(st: &mut Stats, w: &World, e: &Exec, c19_set: &mut HashSet<u64>, c09_
     st.add("model.pristine_queries", e.model.pristine_queries);
     st.add("model.pinned_first_queries", e.model.pinned_queries);
     st.add("model.cursor_shift_checks", e.model.shift_checks);
+    st.add("model.haystack_extension_checks", e.model.extension_checks);
+    st.add("model.haystack_extension_informative", e.model.extension_informative);
     st.add("model.cursor_shift_informative", e.model.shift_informative);
     st.add("model.pinned_first_unknown", e.model.pinned_unknown);
     st.add("model.pristine_unknown", e.model.pristine_unknown);
